@@ -34,7 +34,7 @@ func runC14(c *rt.Ctx) {
 	alpha := c14Alphabet()
 	maxLen := c.N(3, 4)
 	layouts := []lk.PoolSpec{
-		{Name: "p", Key: "k", Order: "asc", Thresh: 1, Stride: 1},
+		{Name: "p", Key: "k", Order: "asc", Thresh: 25, Stride: 1},
 		{Name: "p", Key: "k", Order: "desc", Thresh: 40, Stride: 1},
 		{Name: "p", Key: "k", Order: "asc", Thresh: 0, Stride: 0},
 		{Name: "p", Key: "k", Order: "desc", Thresh: 1, Stride: 16},
